@@ -57,12 +57,14 @@ struct Case
     std::vector<EpSpec> eps;
     std::vector<uint8_t> schedule;
     std::vector<FaultOp> faults;
+    uint16_t minB{0};  // minimum frame size of the sender: shorter frames are zero-padded up to it (DataContext::minBytesPerMessage)
     void io(Ar& a)
     {
         a.num("viaEncoder", viaEncoder);
         a.vec("eps", eps);
         a.numvec("schedule", schedule);
         a.vec("faults", faults);
+        a.optionalNum("minB", minB);
     }
 };
 
@@ -166,6 +168,10 @@ static void buildWithOracle(const Case& c, std::vector<std::vector<Frame>>& stre
             }
             sent.push_back(std::move(s));
         }
+        // a sender with a minimum frame size pads short frames with zeros (also the last segment of a message)
+        for (auto& f : frames)
+            if (f.bytes.size() < c.minB)
+                f.bytes.resize(c.minB, 0);
         streams.push_back(std::move(frames));
     }
 }
@@ -216,7 +222,7 @@ static bool buildWithEncoder(const Case& c, std::vector<std::vector<Frame>>& str
                 sent.push_back(std::move(s));
             }
             size_t maxB = m.nSeg <= 1 ? 24 + (16 + sent[firstId].payload.size()) * static_cast<size_t>(n) : 24 + std::max<size_t>(1, m.segLen);
-            auto enc_frames = enc.encode(batch.begin(), batch.end(), lib::DataContext{0, maxB});
+            auto enc_frames = enc.encode(batch.begin(), batch.end(), lib::DataContext{std::min<size_t>(c.minB, maxB), maxB});
             // attribute frames to messages with the independent walker
             size_t id = firstId;
             size_t segIdx = 0;
@@ -482,6 +488,8 @@ static Verdict runCase(const Case& c, Info& info)
         info.tag("fault_hit_segmented_message");
     if (c.schedule.size() >= 120)
         info.tag("long_run_of_another_endpoint_between_segments");
+    if (c.minB)
+        info.tag("sender_pads_frames_to_a_minimum_size");
     for (const auto& sm : sent)
         if (sm.nFrames > 1 && sm.payload.size() >= 65500)
         {
@@ -531,6 +539,9 @@ static Case genBase(int tier, bool small)
     int nSched = *range<int>(1, 20);
     for (int i = 0; i < nSched; ++i)
         c.schedule.push_back(*range<uint8_t>(0, 2));
+    // a third of the senders have a minimum frame size: short frames - typically the last segment of a message - are zero-padded
+    if (*range<int>(0, 2) == 0)
+        c.minB = *rc::gen::element<uint16_t>(40, 48, 60, 64, 64, 100);
     // one stream in ten: a chatty endpoint - hundreds of unsegmented frames of one endpoint pass between two consecutive segments of
     // another endpoint's message ("uninterrupted on its endpoint" says nothing about how much other traffic lies in between)
     if (!small && c.eps.size() >= 2 && *range<int>(0, 9) == 0)
